@@ -92,6 +92,22 @@ def setMethods (l : List FDecl) (i : Nat) (ms : List (String × CTy)) : List FDe
   | d :: l, 0 => { d with methods := ms } :: l
   | d :: l, i + 1 => d :: setMethods l i ms
 
+/-- `c.cache.Set(g, t)` -/
+def addCache (st : St) (t t' : CTy) : St := { st with cache := (t, t') :: st.cache }
+
+/-- `mktypename` (insert a new type name in the fork scope) + `NewNamed(typename, nil, nil)` + the
+    early `c.cache.Set(g, t)` of `mknamed` -/
+def startNamed (st : St) (d : SDecl) (sid : Nat) : St :=
+  { st with scope := ((d.pkg, d.name), st.fdecls.length) :: st.scope,
+            fdecls := st.fdecls ++ [⟨d.pkg, d.name, none, []⟩],
+            cache := (.named sid, .named st.fdecls.length) :: st.cache }
+
+/-- `t.SetUnderlying(u)`, the entry in `toaddmethods`, and the final `c.cache.Set(g, t)` of `typ` -/
+def finishNamed (st : St) (fid sid : Nat) (u' : CTy) (noMethods : Bool) : St :=
+  let st := { st with fdecls := setUnder st.fdecls fid u' }
+  let st := if noMethods then st else { st with toadd := st.toadd ++ [(fid, sid)] }
+  addCache st (.named sid) (.named fid)
+
 /-- `Converter.typ` (and `mknamed`); `useCache = false` is the converter without its memo table -/
 def conv (useCache : Bool) (env : List SDecl) : Nat → St → CTy → Option (St × CTy)
   | 0, _, _ => none
@@ -114,8 +130,7 @@ def conv (useCache : Bool) (env : List SDecl) : Nat → St → CTy → Option (S
           match conv useCache env fuel st cs with
           | none => none
           | some (st, cs') =>
-            let t' := CTy.node lab cs'
-            some ({ st with cache := (t, t') :: st.cache }, t')
+            some (addCache st t (.node lab cs'), .node lab cs')
     | .named sid =>
         match (if useCache then lookup t st.cache else none) with
         | some t' => some (st, t')
@@ -124,18 +139,12 @@ def conv (useCache : Bool) (env : List SDecl) : Nat → St → CTy → Option (S
           | none => none
           | some d =>
             match lookup (d.pkg, d.name) st.scope with
-            | some fid => some ({ st with cache := (t, .named fid) :: st.cache }, .named fid)
+            | some fid => some (addCache st t (.named fid), .named fid)
             | none =>
               let fid := st.fdecls.length
-              let st := { st with scope := ((d.pkg, d.name), fid) :: st.scope,
-                                  fdecls := st.fdecls ++ [⟨d.pkg, d.name, none, []⟩],
-                                  cache := (t, .named fid) :: st.cache }
-              match conv useCache env fuel st d.under with
+              match conv useCache env fuel (startNamed st d sid) d.under with
               | none => none
-              | some (st, u') =>
-                let st := { st with fdecls := setUnder st.fdecls fid u' }
-                let st := if d.methods.isEmpty then st else { st with toadd := st.toadd ++ [(fid, sid)] }
-                some ({ st with cache := (t, .named fid) :: st.cache }, .named fid)
+              | some (st1, u') => some (finishNamed st1 fid sid u' d.methods.isEmpty, .named fid)
 
 /-- `addmethods(t, g)`: convert the signatures of the declared methods, in order -/
 def convMethods (useCache : Bool) (env : List SDecl) (fuel : Nat) : St → List (String × CTy) → Option (St × List (String × CTy))
